@@ -280,7 +280,7 @@ def jobs(tier):
     import os
     seed = int(os.environ.get("VERIF_SEED", "0") or 0)
     js = [Job("selftest", job_selftest, dict(seed=seed), "selftest", 600)]
-    cfg = [(4, 2), (4, 3), (5, 2), (6, 1)] + ([(5, 3), (6, 2), (7, 1), (4, 4)] if tier == "thorough" else [])
+    cfg = [(4, 2), (4, 3), (5, 2), (6, 1)] + ([(5, 3), (6, 2), (4, 4)] if tier == "thorough" else [])     # (7, 1) measured: solver unknown at 120 s per query - not claimed
     for algo in ("ea", "fea"):
         for n, it in cfg:
             js.append(Job(f"loop/{algo}/n{n}/k{it}", job_loop, dict(algo=algo, n=n, iters=it, timeout_s=1200 if tier == "quick" else 3300),
@@ -290,7 +290,7 @@ def jobs(tier):
 
 def meta(tier):
     return dict(
-        bounds=dict(cities="4..6 (thorough 7)", iterations="1-3 loop iterations from an arbitrary start permutation (thorough 4)",
+        bounds=dict(cities="4..6 (seven cities ended in solver timeouts when measured)", iterations="1-3 loop iterations from an arbitrary start permutation (thorough 4)",
                     matrix=f"symmetric, symbolic entries 0..{DMAX}, accepted by the real constructor",
                     random="integers() returns any value in its range; shuffle() any permutation"),
         outside=["asymmetric instances (the algorithms are documented for symmetric ones)", "more cities / longer runs: the invariant 'y is the length of x, x is a permutation' "
